@@ -3,6 +3,7 @@ CONSTANTS
   MaxDim = 2
   MaxCov = 2
   MaxIds = 2
+  BigDims = {9, 12}
   MaxSel = 3
 SPECIFICATION Spec
 CHECK_DEADLOCK FALSE
